@@ -14,7 +14,7 @@ ST = API.StorageType
 
 
 def F(x):
-    return Fraction(x).limit_denominator(1 << 20)
+    return Fraction(x)
 
 
 def _solve(task):
@@ -135,6 +135,27 @@ def check_c13(prop, tier):
                     "code": code, "msg": msg})
                 res.violation({"cls": "TwoLevel", "code": code},
                               f"{cfg!r}: [{code}] {msg}", rp)
+    # ---- guided deep confirmations: scan the step-size function for long
+    #      blocks / few units, confirm each anomaly on a real TwoLevel object
+    from .props_opt import scan_n_advance, GUIDE
+    G = dict(GUIDE[tier])
+    G["SG"] = min(G["SG"], 8)
+    bad, n_eval = scan_n_advance(**G)
+    res.bounds["planner_scan"] = G
+    res.counters["planner_scan_points"] = n_eval
+    if bad is not None:
+        res.counters["planner_scan_anomalies"] = len(bad)
+        for n, s_units, traj, why in sorted(bad)[:4]:
+            cfg = D.Config("TwoLevel", (n, s_units - 1, "RAM", traj), n, 1)
+            code, msg, nact, nt = c13_eval(cfg, refs.binomial_total_steps)
+            res.add(evaluations=1, transitions=nact)
+            if code is not None:
+                rp = common.write_replay(prop, f"TwoLevel_deep_{code}", {
+                    "property": prop, "kind": "c13", "config": cfg.as_json(),
+                    "code": code, "msg": msg})
+                res.violation({"cls": "TwoLevel", "code": code},
+                              f"{cfg!r}: [{code}] {msg} (found via the "
+                              f"step-size scan: {why})", rp)
     res.cov["distinct_nontrivial"] = nontriv
     res.cov["rule"] = ("every (n, period, binomial_snapshots, storage, "
                        "trajectory, passes) of the box; non-trivial = some "
@@ -152,7 +173,7 @@ def check_c13(prop, tier):
 # ===========================================================================
 # C14
 # ===========================================================================
-C14_BOUNDS = {"quick": dict(N=18), "thorough": dict(N=34)}
+C14_BOUNDS = {"quick": dict(N=32), "thorough": dict(N=56)}
 
 
 def c14_profile(cfg):
@@ -312,8 +333,8 @@ def c14_replay_eval(cfg):
 # ===========================================================================
 # C16
 # ===========================================================================
-C16_BOUNDS = {"quick": dict(NT=40, NS=24, NBIG=70000),
-              "thorough": dict(NT=70, NS=48, NBIG=300000)}
+C16_BOUNDS = {"quick": dict(NT=60, NS=40, NBIG=70000),
+              "thorough": dict(NT=110, NS=72, NBIG=300000)}
 
 
 def norm_action(a):
@@ -496,7 +517,7 @@ def check_c16(prop, tier):
 # ===========================================================================
 # C19
 # ===========================================================================
-C19_BOUNDS = {"quick": dict(N=36, RAM=3), "thorough": dict(N=80, RAM=4)}
+C19_BOUNDS = {"quick": dict(N=64, RAM=4), "thorough": dict(N=128, RAM=6)}
 
 
 def c19_eval(cfg, m):
@@ -628,6 +649,44 @@ def check_c19(prop, tier):
                     "code": code, "msg": msg})
                 res.violation({"cls": "PeriodicDiskRevolve", "code": code},
                               f"{cfg!r}: [{code}] {msg}", rp)
+    # ---- guided deep confirmations: the period function for many RAM unit
+    #      counts; every disagreement with the closed form is confirmed on a
+    #      real PeriodicDiskRevolve stream before it counts
+    pm = None
+    try:
+        pm = common.repo_mod("hrevolve_sequences.periodic_disk_revolve")
+        fper = getattr(pm, "mxrr_close_formula", None)
+    except Exception:  # noqa: BLE001
+        fper = None
+    CM = 160 if tier == "quick" else 400
+    res.bounds["period_scan_ram_units"] = CM
+    anomalies = []
+    if fper is not None:
+        for cm in range(1, CM + 1):
+            for cv in costs:
+                try:
+                    got = int(fper(cm, cv[0], cv[3], cv[2]))
+                except Exception:  # noqa: BLE001
+                    continue
+                want = refs.periodic_period(cm, cv)
+                res.add(evaluations=1)
+                if got != want:
+                    anomalies.append((max(got, want), cm, cv, got, want))
+        res.counters["period_scan_anomalies"] = len(anomalies)
+        for _, cm, cv, got, want in sorted(anomalies)[:3]:
+            for n in (min(got, want) + 2, 2 * max(got, want) + 3):
+                cfg = D.Config("PeriodicDiskRevolve", (cm,) + cv, n)
+                code, msg, nact, nt = c19_eval(cfg, want)
+                res.add(evaluations=1, transitions=nact)
+                if code is not None:
+                    rp = common.write_replay(prop, f"Periodic_deep_{code}", {
+                        "property": prop, "kind": "c19",
+                        "config": cfg.as_json(), "code": code, "msg": msg})
+                    res.violation({"cls": "PeriodicDiskRevolve", "code": code},
+                                  f"{cfg!r}: [{code}] {msg} (found via the "
+                                  f"period scan: library period {got}, closed "
+                                  f"form {want})", rp)
+                    break
     res.cov["distinct_nontrivial"] = nontriv
     res.cov["rule"] = ("every n <= N, ram, cost vector; non-trivial = streams "
                        "with at least two periodic DISK checkpoints")
